@@ -1,6 +1,15 @@
 import TsV.Model.Lang.Common
 /-!
-# Model of `core/src/language/swift.rs`  (stub: not modelled yet)
+# Model of `core/src/language/swift.rs`
+
+The printer has one bit of mutable state, `should_emit_codable_void` (an `AtomicBool` that
+`format_special_type` sets whenever it *formats* the unit type `()`); every function that can
+format a type takes the bit and returns the new one, and `generateFrom` threads it through the
+items of one file and through the files of one run (the same `Swift` value is reused).
+
+Declarations are built as fact records first (`StoredProp`, `CodingKey`, `InitParam`, `EnumCase`,
+`DecodeArm`, `EncodeArm`, `SwiftStruct`, `SwiftEnum`) and turned into text by `render*`, so that
+theorems can speak about what a declaration binds while the correspondence compares bytes.
 -/
 namespace TsV.Lang.Swift
 open TsV TsV.Lang
@@ -13,12 +22,542 @@ structure Cfg where
   defaultGenericConstraints : List Str := []
   codablevoidConstraints : List Str := []
 
+/-- `should_emit_codable_void` -/
+abbrev St := Bool
+
+/-! ## small helpers -/
+
+/-- `SWIFT_KEYWORDS` -/
+def keywords : List Str :=
+  [s%"associatedtype", s%"class", s%"deinit", s%"enum", s%"extension", s%"fileprivate", s%"func",
+   s%"import", s%"init", s%"inout", s%"internal", s%"let", s%"operator", s%"private", s%"protocol",
+   s%"public", s%"rethrows", s%"static", s%"struct", s%"subscript", s%"typealias", s%"var",
+   s%"break", s%"case", s%"continue", s%"default", s%"defer", s%"do", s%"else", s%"fallthrough",
+   s%"for", s%"guard", s%"if", s%"in", s%"repeat", s%"return", s%"switch", s%"where", s%"while",
+   s%"as", s%"Any", s%"catch", s%"false", s%"is", s%"nil", s%"super", s%"self", s%"Self", s%"throw",
+   s%"throws", s%"true", s%"try", s%"Protocol", s%"Type"]
+
+/-- `swift_keyword_aware_rename` -/
+def kw (name : Str) : Str := if keywords.contains name then s%"`" ++ name ++ s%"`" else name
+
+/-- `parser::remove_dash_from_identifier` -/
+def removeDash (s : Str) : Str := Str.replaceChar s '-' ['_']
+
+/-- `str::split(char)`: always at least one piece -/
+def splitChar (c : Char) (s : Str) : List Str :=
+  go s []
+where
+  go : Str → Str → List Str
+    | [], cur => [cur.reverse]
+    | x :: rest, cur => if x = c then cur.reverse :: go rest [] else go rest (x :: cur)
+
+/-- `str::trim_end` -/
+def trimEnd (U : UnicodeOps) (s : Str) : Str := (s.reverse.dropWhile U.isWhite).reverse
+
+def codable : Str := s%"Codable"
+
+/-- `write_comments` / `write_comment`: one `/// ` line per comment, trailing white space removed -/
+def comments (U : UnicodeOps) (indent : Nat) (cs : List Str) : Str :=
+  cs.flatMap fun c => tabs indent ++ s%"/// " ++ trimEnd U c ++ nl
+
+/-! ## generic constraints -/
+
+/-- `GenericConstraints::split_constraints` -/
+def splitConstraints (U : UnicodeOps) (s : Str) : List Str := (splitChar '&' s).map U.trim
+
+/-- `GenericConstraints::from_config(cfg.default_generic_constraints).get_constraints()`:
+a `BTreeSet<String>` that always contains `Codable` -/
+def defaultConstraints (U : UnicodeOps) (cfg : Cfg) : List Str :=
+  Parser.toSet Str.lt (codable :: cfg.defaultGenericConstraints.flatMap (splitConstraints U))
+
+/-- one generic parameter of a declaration with its `&`-joined constraints (a sorted set) -/
+structure GenericParam where
+  name : Str
+  constraints : List Str
+deriving Repr, Inhabited, DecidableEq
+
+/-- the `HashMap<&str, BTreeSet<&str>>` of `generic_constraints`, as the list of insertions in
+the order they are made (the annotation set is a `BTreeSet`, so sorted).  Only `get` is used on the
+map, so its iteration order is immaterial; a later insertion for the same name overwrites. -/
+def annotatedConstraints (U : UnicodeOps) (defaults : List Str) (dm : DecoratorMap) : List (Str × List Str) :=
+  match dm.swiftGenericConstraints with
+  | none => []
+  | some gcs => gcs.filterMap fun gc =>
+    match splitChar ':' gc with
+    | name :: cs :: _ => some (name, Parser.toSet Str.lt ((splitChar '&' cs).map U.trim ++ defaults))
+    | _ => none
+
+/-- `Swift::generic_constraints` as data -/
+def genericParams (U : UnicodeOps) (cfg : Cfg) (dm : DecoratorMap) (gens : List Str) : List GenericParam :=
+  let defaults := defaultConstraints U cfg
+  let ann := (annotatedConstraints U defaults dm).reverse
+  gens.map fun g =>
+    match ann.find? (·.1 == g) with
+    | some (_, cs) => ⟨g, cs⟩
+    | none => ⟨g, defaults⟩
+
+def renderGenericParams (ps : List GenericParam) : Str :=
+  Str.intercalate s%", " (ps.map fun p => p.name ++ s%": " ++ Str.intercalate s%" & " p.constraints)
+
+/-- `(!generic_types.is_empty()).then(|| format!("<{generic_names_and_constraints}>"))` -/
+def renderGenericClause (ps : List GenericParam) : Str :=
+  if ps.isEmpty then [] else s%"<" ++ renderGenericParams ps ++ s%">"
+
+/-! ## types -/
+
+/-- `Swift::format_simple_type` -/
+def formatSimple (cfg : Cfg) (gens : List Str) (base : Str) : Str :=
+  match mapGet cfg.typeMappings base with
+  | some m => m
+  | none => if gens.contains base then base else cfg.pfx ++ base
+
+mutual
+  /-- `Language::format_type` for Swift (`format_special_type` does *not* consult the type map) -/
+  def formatType (cfg : Cfg) (gens : List Str) : RustType → St → Outcome (Str × St)
+    | .simple id, st => .ok (formatSimple cfg gens id, st)
+    | .generic id ps, st =>
+      match mapGet cfg.typeMappings id with
+      | some m => .ok (m, st)
+      | none =>
+        match formatTypes cfg gens ps st with
+        | .ok (strs, st') =>
+          .ok (formatSimple cfg gens id ++ (if strs.isEmpty then [] else angle strs), st')
+        | .err e => .err e
+        | .panic s => .panic s
+    | .vec r, st => (formatType cfg gens r st).bind fun (s, st) => .ok (s%"[" ++ s ++ s%"]", st)
+    | .array r _, st => (formatType cfg gens r st).bind fun (s, st) => .ok (s%"[" ++ s ++ s%"]", st)
+    | .slice r, st => (formatType cfg gens r st).bind fun (s, st) => .ok (s%"[" ++ s ++ s%"]", st)
+    | .option r, st => (formatType cfg gens r st).bind fun (s, st) => .ok (s ++ s%"?", st)
+    | .hashMap k v, st =>
+      (formatType cfg gens k st).bind fun (ks, st) =>
+      (formatType cfg gens v st).bind fun (vs, st) => .ok (s%"[" ++ ks ++ s%": " ++ vs ++ s%"]", st)
+    | .prim p, st =>
+      match p with
+      | .unit => .ok (s%"CodableVoid", true)
+      | .string => .ok (s%"String", st)
+      | .char => .ok (s%"Unicode.Scalar", st)
+      | .i8 => .ok (s%"Int8", st)
+      | .u8 => .ok (s%"UInt8", st)
+      | .i16 => .ok (s%"Int16", st)
+      | .u16 => .ok (s%"UInt16", st)
+      | .usize => .ok (s%"UInt", st)
+      | .isize => .ok (s%"Int", st)
+      | .i32 => .ok (s%"Int32", st)
+      | .u32 => .ok (s%"UInt32", st)
+      | .i54 | .i64 => .ok (s%"Int64", st)
+      | .u53 | .u64 => .ok (s%"UInt64", st)
+      | .bool => .ok (s%"Bool", st)
+      | .f32 => .ok (s%"Float", st)
+      | .f64 => .ok (s%"Double", st)
+      | .dateTime => .err (.formatError s%"UnsupportedSpecialType")
+  def formatTypes (cfg : Cfg) (gens : List Str) : List RustType → St → Outcome (List Str × St)
+    | [], st => .ok ([], st)
+    | t :: ts, st =>
+      (formatType cfg gens t st).bind fun (s, st) =>
+      (formatTypes cfg gens ts st).bind fun (ss, st) => .ok (s :: ss, st)
+end
+
+/-- `match f.type_override(Swift) { Some(t) => t, None => self.format_type(..)? }` -/
+def fieldType (cfg : Cfg) (gens : List Str) (f : RustField) (st : St) : Outcome (Str × St) :=
+  match typeOverride f .swift with
+  | some t => .ok (t, st)
+  | none => formatType cfg gens f.ty st
+
+/-! ## structs -/
+
+/-- one `public let` line -/
+structure StoredProp where
+  comments : List Str
+  name : Str            -- as printed (dashes replaced, keywords in back-ticks)
+  ty : Str
+  optional : Bool       -- the extra `?` of a `#[serde(default)]` field that is not an `Option`
+deriving Repr, Inhabited, DecidableEq
+
+/-- one case of a `CodingKeys` enum -/
+structure CodingKey where
+  caseName : Str              -- as printed
+  rawValue : Option Str       -- ` = "raw"` (written verbatim between the quotes)
+deriving Repr, Inhabited, DecidableEq
+
+/-- one parameter of the memberwise `init` -/
+structure InitParam where
+  label : Str           -- dashes replaced, keywords *not* escaped
+  ty : Str
+  optional : Bool
+deriving Repr, Inhabited, DecidableEq
+
+/-- `self.<member> = <param>` -/
+structure InitAssign where
+  member : Str          -- dashes replaced, keywords not escaped
+  param : Str           -- dashes replaced, keywords in back-ticks
+deriving Repr, Inhabited, DecidableEq
+
+structure SwiftStruct where
+  comments : List Str
+  name : Str                        -- type name as printed (prefix, back-ticks)
+  generics : List GenericParam
+  conformances : List Str
+  props : List StoredProp
+  codingKeys : List CodingKey
+  explicitCodingKeys : Bool         -- `should_write_coding_keys`
+  initParams : List InitParam
+  initAssigns : List InitAssign
+deriving Repr, Inhabited, DecidableEq
+
+/-- the printed member name of a field: `remove_dash_from_identifier(swift_keyword_aware_rename(renamed))` -/
+def memberName (f : RustField) : Str := removeDash (kw f.id.renamed)
+
+/-- the `coding_keys.push(..)` of one field -/
+def fieldCodingKey (f : RustField) : CodingKey :=
+  if f.id.renamed.contains '-' then ⟨memberName f, some f.id.renamed⟩ else ⟨memberName f, none⟩
+
+def fieldOptional (f : RustField) : Bool := f.hasDefault && !f.ty.isOptional
+
+/-- first loop of `write_struct` -/
+def storedProps (cfg : Cfg) (gens : List Str) : List RustField → St → Outcome (List StoredProp × St)
+  | [], st => .ok ([], st)
+  | f :: fs, st =>
+    (fieldType cfg gens f st).bind fun (ty, st) =>
+    (storedProps cfg gens fs st).bind fun (rest, st) =>
+      .ok ({ comments := f.comments, name := memberName f, ty, optional := fieldOptional f } :: rest, st)
+
+/-- second loop of `write_struct` (the types are formatted again) -/
+def initParams (cfg : Cfg) (gens : List Str) : List RustField → St → Outcome (List InitParam × St)
+  | [], st => .ok ([], st)
+  | f :: fs, st =>
+    (fieldType cfg gens f st).bind fun (ty, st) =>
+    (initParams cfg gens fs st).bind fun (rest, st) =>
+      .ok ({ label := removeDash f.id.renamed, ty, optional := fieldOptional f } :: rest, st)
+
+/-- `Codable`, then the configured default decorators -/
+def defaultDecorators (cfg : Cfg) : List Str := codable :: cfg.defaultDecorators
+
+/-- the conformance list of a struct -/
+def structConformances (cfg : Cfg) (dm : DecoratorMap) : List Str :=
+  match dm.swift with
+  | some decs => defaultDecorators cfg ++ decs.filter (· != codable)
+  | none => defaultDecorators cfg
+
+/-- `write_struct` as facts -/
+def structFacts (U : UnicodeOps) (cfg : Cfg) (rs : RustStruct) (st : St) : Outcome (SwiftStruct × St) :=
+  (storedProps cfg rs.genericTypes rs.fields st).bind fun (props, st) =>
+  (initParams cfg rs.genericTypes rs.fields st).bind fun (params, st) =>
+    .ok ({ comments := rs.comments,
+           name := kw (cfg.pfx ++ rs.id.renamed),
+           generics := genericParams U cfg rs.decorators rs.genericTypes,
+           conformances := structConformances cfg rs.decorators,
+           props,
+           codingKeys := rs.fields.map fieldCodingKey,
+           explicitCodingKeys := rs.fields.any fun f => f.id.renamed.contains '-',
+           initParams := params,
+           initAssigns := rs.fields.map fun f => ⟨removeDash f.id.renamed, memberName f⟩ }, st)
+
+def renderProp (U : UnicodeOps) (p : StoredProp) : Str :=
+  comments U 1 p.comments ++ s%"\tpublic let " ++ p.name ++ s%": " ++ p.ty ++
+    (if p.optional then s%"?" else []) ++ nl
+
+def renderCodingKey (k : CodingKey) : Str :=
+  match k.rawValue with
+  | some r => k.caseName ++ s%" = \"" ++ r ++ s%"\""
+  | none => k.caseName
+
+/-- the nested `enum CodingKeys` (preceded by an empty line) -/
+def renderCodingKeys (ks : List CodingKey) : Str :=
+  s%"\n\tenum CodingKeys: String, CodingKey, Codable {\n\t\tcase " ++
+    Str.intercalate s%",\n\t\t\t" (ks.map renderCodingKey) ++ s%"\n\t}\n"
+
+def renderInitParam (p : InitParam) : Str :=
+  p.label ++ s%": " ++ p.ty ++ (if p.optional then s%"?" else [])
+
+def renderInitAssign (a : InitAssign) : Str := s%"\n\t\tself." ++ a.member ++ s%" = " ++ a.param
+
+def renderStruct (U : UnicodeOps) (s : SwiftStruct) : Str :=
+  nl ++ comments U 0 s.comments ++
+  s%"public struct " ++ s.name ++ renderGenericClause s.generics ++ s%": " ++
+    Str.intercalate s%", " s.conformances ++ s%" {\n" ++
+  s.props.flatMap (renderProp U) ++
+  (if s.explicitCodingKeys then renderCodingKeys s.codingKeys else []) ++
+  (if s.props.isEmpty then [] else nl) ++
+  s%"\tpublic init(" ++ Str.intercalate s%", " (s.initParams.map renderInitParam) ++ s%") {" ++
+  s.initAssigns.flatMap renderInitAssign ++
+  (if s.props.isEmpty then [] else s%"\n\t") ++ s%"}\n" ++
+  s%"}\n"
+
+/-- `write_struct` -/
+def writeStruct (U : UnicodeOps) (cfg : Cfg) (rs : RustStruct) (st : St) : Outcome (Str × St) :=
+  (structFacts U cfg rs st).bind fun (s, st) => .ok (renderStruct U s, st)
+
+/-! ## type aliases -/
+
+/-- `write_type_alias` -/
+def writeAlias (U : UnicodeOps) (cfg : Cfg) (a : RustTypeAlias) (st : St) : Outcome (Str × St) :=
+  (formatType cfg a.genericTypes a.ty st).bind fun (ty, st) =>
+    .ok (nl ++ comments U 0 a.comments ++ s%"public typealias " ++ kw (cfg.pfx ++ a.id.renamed) ++
+         genericSuffix a.genericTypes ++ s%" = " ++ ty ++ nl, st)
+
+/-! ## enums -/
+
+/-- the associated value of a case -/
+structure Payload where
+  ty : Str              -- as printed between the parentheses
+  optional : Bool       -- the Rust payload is an `Option` (decode falls back to `decodeNil`)
+deriving Repr, Inhabited, DecidableEq
+
+structure EnumCase where
+  comments : List Str
+  caseName : Str        -- `variant_name`: camel-cased original (algebraic: `_` before a leading digit)
+  printedName : Str     -- `swift_keyword_aware_rename(variant_name)`, what the `case` line declares
+  wireName : Str        -- `id.renamed`, the serialised name
+  payload : Option Payload
+deriving Repr, Inhabited, DecidableEq
+
+/-- one arm of the `switch type` in `init(from:)`; holes: content key -/
+inductive DecodeArm where
+  | unit (caseName : Str)
+  | content (caseName : Str) (ty : Str) (nilFallback : Bool)
+deriving Repr, Inhabited, DecidableEq
+
+/-- one arm of the `switch self` in `encode(to:)`; holes: tag key, content key -/
+inductive EncodeArm where
+  | unit (caseName : Str)
+  | content (caseName : Str)
+deriving Repr, Inhabited, DecidableEq
+
+/-- the hand-written `Codable` conformance of an algebraic enum -/
+structure AlgebraicCodable where
+  tagKey : Str
+  contentKey : Str
+  typeName : Str
+  decodeArms : List DecodeArm
+  encodeArms : List EncodeArm
+deriving Repr, Inhabited, DecidableEq
+
+structure SwiftEnum where
+  comments : List Str
+  indirect : Bool
+  name : Str
+  generics : List GenericParam
+  conformances : List Str
+  cases : List EnumCase
+  codingKeys : List CodingKey                -- empty for a unit (raw-value) enum
+  codable : Option AlgebraicCodable          -- `none` for a unit (raw-value) enum
+deriving Repr, Inhabited, DecidableEq
+
+/-- the name `make_anonymous_struct_name` gives, *without* the prefix -/
+def anonymousStructName (e : RustEnum) (variantOriginal : Str) : Str :=
+  e.id.renamed ++ variantOriginal ++ s%"Inner"
+
+/-- `variant_name` of an algebraic enum's variant -/
+def algebraicCaseName (v : RustEnumVariant) : Str :=
+  let n := Rename.toCamel v.id.original
+  match n with
+  | c :: _ => if Str.isAsciiDigit c then s%"_" ++ n else n
+  | [] => n
+
+/-- one variant of an algebraic enum -/
+def algebraicCase (cfg : Cfg) (e : RustEnum) (v : RustEnumVariant) (st : St) : Outcome (EnumCase × St) :=
+  let name := algebraicCaseName v
+  let mk (p : Option Payload) : EnumCase :=
+    { comments := v.comments, caseName := name, printedName := kw name, wireName := v.id.renamed, payload := p }
+  match v with
+  | .unit _ _ => .ok (mk none, st)
+  | .tuple _ _ ty =>
+    (formatType cfg e.genericTypes ty st).bind fun (t, st) =>
+      .ok (mk (some ⟨kw t, ty.isOptional⟩), st)
+  | .anonymousStruct id _ fields =>
+    let gens := (fields.flatMap fun f => e.genericTypes.filter fun g => f.ty.containsType g).eraseDups
+    .ok (mk (some ⟨cfg.pfx ++ anonymousStructName e id.original ++ genericSuffix gens, false⟩), st)
+
+def algebraicCases (cfg : Cfg) (e : RustEnum) : List RustEnumVariant → St → Outcome (List EnumCase × St)
+  | [], st => .ok ([], st)
+  | v :: vs, st =>
+    (algebraicCase cfg e v st).bind fun (c, st) =>
+    (algebraicCases cfg e vs st).bind fun (cs, st) => .ok (c :: cs, st)
+
+/-- one variant of a unit enum -/
+def unitCase (v : RustEnumVariant) : EnumCase :=
+  let name := Rename.toCamel v.id.original
+  { comments := v.comments, caseName := name, printedName := kw name, wireName := v.id.renamed, payload := none }
+
+/-- `coding_keys.push(..)` of an algebraic variant -/
+def caseCodingKey (c : EnumCase) : CodingKey :=
+  if c.caseName == c.wireName then ⟨c.printedName, none⟩ else ⟨c.printedName, some c.wireName⟩
+
+/-- `decoding_cases.push(..)`; a payload case uses the *unescaped* name -/
+def decodeArmOf (c : EnumCase) : DecodeArm :=
+  match c.payload with
+  | none => .unit c.caseName
+  | some p => .content c.caseName p.ty p.optional
+
+/-- `encoding_cases.push(..)`; a unit case uses the escaped name, a payload case the unescaped one -/
+def encodeArmOf (c : EnumCase) : EncodeArm :=
+  match c.payload with
+  | none => .unit c.printedName
+  | some _ => .content c.caseName
+
+/-- `determine_decorators` -/
+def enumConformances (cfg : Cfg) (e : RustEnum) : List Str :=
+  let always := match e.keys with
+    | none => s%"String" :: defaultDecorators cfg
+    | some _ => defaultDecorators cfg
+  always ++ (match e.decorators.swift with
+    | some decs => decs.filter fun d => !always.contains d
+    | none => [])
+
+/-- `write_types_for_anonymous_structs` -/
+def anonymousStructs (U : UnicodeOps) (cfg : Cfg) (e : RustEnum) :
+    List (Id × List RustField) → St → Outcome (List SwiftStruct × St)
+  | [], st => .ok ([], st)
+  | (id, fields) :: rest, st =>
+    (structFacts U cfg (anonymousStruct e (anonymousStructName e id.original) id.original fields) st).bind
+      fun (s, st) =>
+    (anonymousStructs U cfg e rest st).bind fun (ss, st) => .ok (s :: ss, st)
+
+/-- `write_enum` as facts: the structs generated for the struct variants, then the enum -/
+def enumFacts (U : UnicodeOps) (cfg : Cfg) (e : RustEnum) (st : St) :
+    Outcome (List SwiftStruct × SwiftEnum × St) :=
+  let name := kw (cfg.pfx ++ e.id.renamed)
+  (anonymousStructs U cfg e (structVariants e) st).bind fun (structs, st) =>
+  (match e.keys with
+   | none => Outcome.ok (e.variants.map unitCase, st)
+   | some _ => algebraicCases cfg e e.variants st).bind fun (cases, st) =>
+    .ok (structs,
+         { comments := e.comments,
+           indirect := e.isRecursive,
+           name,
+           generics := genericParams U cfg e.decorators e.genericTypes,
+           conformances := enumConformances cfg e,
+           cases,
+           codingKeys := (match e.keys with | none => [] | some _ => cases.map caseCodingKey),
+           codable := e.keys.map fun (tag, content) =>
+             { tagKey := tag, contentKey := content, typeName := name,
+               decodeArms := cases.map decodeArmOf, encodeArms := cases.map encodeArmOf } }, st)
+
+/-- the `case` line of a raw-value (unit) enum -/
+def renderUnitCase (U : UnicodeOps) (c : EnumCase) : Str :=
+  comments U 1 c.comments ++ s%"\tcase " ++ c.printedName ++
+    (if c.wireName == c.caseName then [] else s%" = " ++ debugStr c.wireName) ++ nl
+
+/-- the `case` line of an algebraic enum -/
+def renderAlgebraicCase (U : UnicodeOps) (c : EnumCase) : Str :=
+  comments U 1 c.comments ++ s%"\tcase " ++ c.printedName ++
+    (match c.payload with | some p => s%"(" ++ p.ty ++ s%")" | none => []) ++ nl
+
+def renderDecodeArm (contentKey : Str) : DecodeArm → Str
+  | .unit n =>
+    s%"\n\t\t\tcase ." ++ n ++ s%":\n\t\t\t\tself = ." ++ n ++ s%"\n\t\t\t\treturn"
+  | .content n ty nilFallback =>
+    -- the `Option` template starts with twelve spaces, the others with three tabs
+    (if nilFallback then s%"\n            case ." else s%"\n\t\t\tcase .") ++ n ++
+    s%":\n\t\t\t\tif let content = try? container.decode(" ++ ty ++ s%".self, forKey: ." ++ contentKey ++
+    s%") {\n\t\t\t\t\tself = ." ++ n ++ s%"(content)\n\t\t\t\t\treturn\n\t\t\t\t}" ++
+    (if nilFallback then
+      s%"\n\t\t\t\telse if let isNil = try? container.decodeNil(forKey: ." ++ contentKey ++
+      s%"), isNil {\n\t\t\t\t\tself = ." ++ n ++ s%"(nil)\n\t\t\t\t\treturn\n\t\t\t\t}"
+    else [])
+
+def renderEncodeArm (tagKey contentKey : Str) : EncodeArm → Str
+  | .unit n =>
+    s%"\n\t\tcase ." ++ n ++ s%":\n\t\t\ttry container.encode(CodingKeys." ++ n ++ s%", forKey: ." ++ tagKey ++ s%")"
+  | .content n =>
+    s%"\n\t\tcase ." ++ n ++ s%"(let content):\n\t\t\ttry container.encode(CodingKeys." ++ n ++
+    s%", forKey: ." ++ tagKey ++ s%")\n\t\t\ttry container.encode(content, forKey: ." ++ contentKey ++ s%")"
+
+def renderCodable (a : AlgebraicCodable) : Str :=
+  s%"\n\tprivate enum ContainerCodingKeys: String, CodingKey {\n\t\tcase " ++ a.tagKey ++ s%", " ++ a.contentKey ++
+  s%"\n\t}\n\n\tpublic init(from decoder: Decoder) throws {\n" ++
+  s%"\t\tlet container = try decoder.container(keyedBy: ContainerCodingKeys.self)\n" ++
+  s%"\t\tif let type = try? container.decode(CodingKeys.self, forKey: ." ++ a.tagKey ++ s%") {\n" ++
+  s%"\t\t\tswitch type {" ++ a.decodeArms.flatMap (renderDecodeArm a.contentKey) ++ s%"\n\t\t\t}\n\t\t}\n" ++
+  s%"\t\tthrow DecodingError.typeMismatch(" ++ a.typeName ++
+  s%".self, DecodingError.Context(codingPath: decoder.codingPath, debugDescription: \"Wrong type for " ++
+  a.typeName ++ s%"\"))\n\t}\n\n" ++
+  s%"\tpublic func encode(to encoder: Encoder) throws {\n" ++
+  s%"\t\tvar container = encoder.container(keyedBy: ContainerCodingKeys.self)\n" ++
+  s%"\t\tswitch self {" ++ a.encodeArms.flatMap (renderEncodeArm a.tagKey a.contentKey) ++ s%"\n\t\t}\n\t}\n"
+
+/-- the enum declaration itself (after the leading empty line and the generated structs) -/
+def renderEnum (U : UnicodeOps) (e : SwiftEnum) : Str :=
+  comments U 0 e.comments ++
+  s%"public " ++ (if e.indirect then s%"indirect " else []) ++ s%"enum " ++ e.name ++
+    renderGenericClause e.generics ++ s%": " ++ Str.intercalate s%", " e.conformances ++ s%" {\n" ++
+  (match e.codable with
+   | none => e.cases.flatMap (renderUnitCase U)
+   | some _ => e.cases.flatMap (renderAlgebraicCase U)) ++
+  (if e.codingKeys.isEmpty then [] else renderCodingKeys e.codingKeys) ++
+  (match e.codable with
+   | none => []
+   | some a => renderCodable a) ++
+  s%"}\n"
+
+/-- `write_enum` -/
+def writeEnum (U : UnicodeOps) (cfg : Cfg) (e : RustEnum) (st : St) : Outcome (Str × St) :=
+  (enumFacts U cfg e st).bind fun (structs, se, st) =>
+    .ok (nl ++ structs.flatMap (renderStruct U) ++ renderEnum U se, st)
+
+/-! ## files -/
+
+/-- `begin_file` -/
+def beginFile (cfg : Cfg) : Str :=
+  (match cfg.versionHeader with
+   | some v => s%"/*\n Generated by typeshare " ++ v ++ s%"\n */\n\n"
+   | none => []) ++ s%"import Foundation\n"
+
+/-- `get_codable_contents` -/
+def codableContents (cfg : Cfg) : Str :=
+  let decs := defaultDecorators cfg ++ cfg.codablevoidConstraints
+  let decs := if decs.contains codable then decs else decs ++ [codable]
+  s%"\n/// () isn't codable, so we use this instead to represent Rust's unit type\npublic struct CodableVoid: " ++
+    Str.intercalate s%", " decs ++ s%" {}"
+
+/-- `write_codable` -/
+def writeCodable (cfg : Cfg) : Str := codableContents cfg ++ nl
+
+/-- `end_file` -/
+def endFile (cfg : Cfg) (multiFile : Bool) (st : St) : Str :=
+  if st && !multiFile then writeCodable cfg else []
+
+def writeItem (U : UnicodeOps) (cfg : Cfg) (it : RustItem) (st : St) : Outcome (Str × St) :=
+  match it with
+  | .struct s => writeStruct U cfg s st
+  | .enum e => writeEnum U cfg e st
+  | .alias a => writeAlias U cfg a st
+  | .const _ => .panic s%"swift.rs:268"     -- `write_const` is `todo!()`
+
+def writeItems (U : UnicodeOps) (cfg : Cfg) : List RustItem → St → Outcome (Str × St)
+  | [], st => .ok ([], st)
+  | it :: its, st =>
+    (writeItem U cfg it st).bind fun (a, st) =>
+    (writeItems U cfg its st).bind fun (b, st) => .ok (a ++ b, st)
+
+/-- `Language::generate_types` for one output file (`write_imports` writes nothing); `st0` is the
+state left by the files generated before this one -/
+def generate (U : UnicodeOps) (cfg : Cfg) (multiFile : Bool) (d : ParsedData) (st0 : St) : Outcome (Str × St) :=
+  match Pipeline.generateOrder d with
+  | none => .panic s%"topsort"
+  | some items =>
+    (writeItems U cfg items st0).bind fun (body, st) =>
+      .ok (beginFile cfg ++ body ++ endFile cfg multiFile st, st)
+
+/-- all crate files of one run, the state threaded through the crates in map order -/
+def generateFrom (U : UnicodeOps) (cfg : Cfg) (multiFile : Bool) :
+    List (Str × ParsedData × Option Pipeline.ScopedCrateTypes) → St → Outcome (List (Str × Str) × St)
+  | [], st => .ok ([], st)
+  | (crate, d, _) :: rest, st =>
+    (generate U cfg multiFile d st).bind fun (text, st) =>
+    (generateFrom U cfg multiFile rest st).bind fun (outs, st) => .ok ((crate, text) :: outs, st)
+
+/-- `post_generation` into an empty output folder: the files it creates -/
+def postGeneration (cfg : Cfg) (multiFile : Bool) (st : St) : List (Str × Str) :=
+  if st && multiFile then [(s%"<post>/Codable.swift", writeCodable cfg)] else []
+
 /-- all output files of one run: `jobs` are the crates in map order with their reconciled data and
 (in multi-file mode) the imports `used_imports` computed.  Returns (crate ↦ text) in the same order
 (plus, for Swift in multi-file mode, what `post_generation` writes, under the key
 `<post>/<file name>`). -/
 def generateAll (E : Ext) (cfg : Cfg) (multiFile : Bool)
     (jobs : List (Str × ParsedData × Option Pipeline.ScopedCrateTypes)) : Outcome (List (Str × Str)) :=
-  .err (.formatError s%"unmodelled-language")
+  (generateFrom E.U cfg multiFile jobs false).bind fun (outs, st) =>
+    .ok (outs ++ postGeneration cfg multiFile st)
 
 end TsV.Lang.Swift
